@@ -43,6 +43,14 @@ def canon(body, place, depth=0):
         if ds[0][2]['lhs']['p']:
             break
         src = None
+        if rv['rk'] == 'aggregate' and rv['agg'].startswith('closure:') and proj and isinstance(proj[0], dict) and 'i' in proj[0] and proj[0].get('adt') == 'closure' \
+                and proj[0]['i'] < len(rv.get('ops', [])) and op_place(rv['ops'][proj[0]['i']]):
+            # a captured variable read through the closure's environment (a closure body inlined into its creator): the captured place itself
+            src = op_place(rv['ops'][proj[0]['i']])
+            proj = proj[1:]
+            l = src['l']
+            proj = list(src['p']) + proj
+            continue
         if rv['rk'] == 'use' and op_place(rv['ops'][0]):
             src = op_place(rv['ops'][0])
         elif rv['rk'] == 'ref':
